@@ -761,6 +761,181 @@ package bigbuff
 //@   ensures quiet [C04] : !old(broadcast) ==> icalls("(*sync.Cond).Broadcast") == 0
 
 // ---------------------------------------------------------------------------------------------------
+// Exclusive options and API wrappers (C09/C10): each option stores exactly its value; ExclusiveValue resolves
+// exactly once with exactly what the value function returned; the wrappers forward to CallWithOptions / call.
+
+//@ func ExclusiveKey$1
+//@   props C09 C10
+//@   modular
+//@   requires cfg : c != nil
+//@   ensures set : c.key == value && c.work == old(c.work) && c.wait == old(c.wait) && c.start == old(c.start)
+
+//@ func ExclusiveWork$1
+//@   props C09 C10
+//@   modular
+//@   requires cfg : c != nil
+//@   ensures set : c.work == value && c.key == old(c.key) && c.wait == old(c.wait) && c.start == old(c.start)
+
+//@ func ExclusiveWait$1
+//@   props C09 C10
+//@   modular
+//@   requires cfg : c != nil
+//@   ensures set : c.wait == value && c.key == old(c.key) && c.work == old(c.work) && c.start == old(c.start)
+
+//@ func ExclusiveStart$1
+//@   props C10
+//@   modular
+//@   requires cfg : c != nil
+//@   ensures set : c.start == value && c.key == old(c.key) && c.work == old(c.work) && c.wait == old(c.wait)
+
+//@ func ExclusiveValue$1
+//@   props C10
+//@   modular
+//@   maypanic
+//@   requires wired : value != nil && resolve != nil && value != resolve
+//@   # resolve is called exactly once, with exactly the result and error of exactly one call of value
+//@   at-call dynamic#1 forward : calls(value) == 1 && arg0 == lastres(value, 0) && arg1 == lastres(value, 1)
+//@   ensures once : calls(value) == 1 && calls(resolve) == 1
+
+//@ func (*Exclusive).CallWithOptions
+//@   props C09 C10
+//@   maypanic
+//@   loop 0 invariant quiet : icalls("(*Exclusive).call") == 0
+//@   loop 1 invariant quiet : icalls("(*Exclusive).call") == 0
+//@   ensures forwarded : icalls("(*Exclusive).call") == 1 && ret == ilast("(*Exclusive).call", 0)
+
+//@ func (*Exclusive).CallAfter
+//@   props C10
+//@   maypanic
+//@   # the blocking form returns exactly the outcome received from the async form's channel
+//@   at-call (*Exclusive).CallAfterAsync#0 forward : arg1 == key && arg2 == value && arg3 == wait
+//@   ensures outcome : icalls("(*Exclusive).CallAfterAsync") == 1 && ret0 == lastrecv(ilast("(*Exclusive).CallAfterAsync", 0)).Result && ret1 == lastrecv(ilast("(*Exclusive).CallAfterAsync", 0)).Error
+
+//@ func (*Exclusive).CallAfterAsync
+//@   props C10 C09
+//@   maypanic
+
+//@ func (*Exclusive).Call
+//@   props C10
+//@   maypanic
+//@   at-call (*Exclusive).CallAfter#0 forward : arg1 == key && arg2 == value && arg3 == 0
+//@   ensures outcome : ret0 == ilast("(*Exclusive).CallAfter", 0) && ret1 == ilast("(*Exclusive).CallAfter", 1)
+
+//@ func (*Exclusive).CallAsync
+//@   props C10
+//@   maypanic
+//@   at-call (*Exclusive).CallAfterAsync#0 forward : arg1 == key && arg2 == value && arg3 == 0
+//@   ensures outcome : ret == ilast("(*Exclusive).CallAfterAsync", 0)
+
+//@ func (*Exclusive).Start
+//@   props C10
+//@   maypanic
+//@   at-call (*Exclusive).StartAfter#0 forward : arg1 == key && arg2 == value && arg3 == 0
+//@   ensures once : icalls("(*Exclusive).StartAfter") == 1
+
+//@ func (*Exclusive).StartAfter
+//@   props C10 C09
+//@   maypanic
+
+// ---------------------------------------------------------------------------------------------------
+// API aliases: thin wrappers whose whole meaning is the call they forward to.
+
+//@ func (*ChanPubSub).Subscribe
+//@   props C06 C07
+//@   maypanic
+//@   requires recv : x != nil
+//@   at-call (*ChanPubSub).Add#0 one : arg1 == 1
+//@   ensures once : icalls("(*ChanPubSub).Add") == 1
+
+//@ func (*ChanPubSub).Unsubscribe
+//@   props C06 C07
+//@   maypanic
+//@   requires recv : x != nil
+//@   at-call (*ChanPubSub).Add#0 minusone : arg1 == -1
+//@   ensures once : icalls("(*ChanPubSub).Add") == 1
+
+//@ func (*ChanPubSub).C
+//@   props C06
+//@   maypanic
+//@   ensures chan : ret == x.ping.C
+
+//@ func (*Notifier).Subscribe
+//@   props C15
+//@   maypanic
+//@   at-call (*Notifier).SubscribeContext#0 forward : arg1 == nil && arg2 == key && arg3 == target
+//@   ensures once : icalls("(*Notifier).SubscribeContext") == 1
+
+//@ func (*Notifier).Publish
+//@   props C15
+//@   maypanic
+//@   at-call (*Notifier).PublishContext#0 forward : arg1 == nil && arg2 == key && arg3 == value
+//@   ensures once : icalls("(*Notifier).PublishContext") == 1
+
+//@ func (*Notifier).SubscribeCancel
+//@   props C15 C12
+//@   maypanic
+//@   # subscribes under a fresh cancellable child context, unsubscribes (once) when it is cancelled, and cancels it
+//@   # itself if subscribing panics
+//@   at-call (*Notifier).SubscribeContext#0 forward : arg1 != nil && arg1 == now(ctx) && arg2 == key && arg3 == target
+//@   ensures subscribed : icalls("(*Notifier).SubscribeContext") == 1 && spawned("(*Notifier).SubscribeCancel$2") == 1 && ret != nil
+//@   ensures-panic released : spawned("(*Notifier).SubscribeCancel$2") == 0
+
+//@ func (*Notifier).SubscribeCancel$2
+//@   props C15 C12
+//@   modular
+//@   maypanic
+//@   requires wired : ctx != nil
+//@   at-call (*Notifier).Unsubscribe#0 aftercancel : cancelled(ctx) && arg1 == key && arg2 == target
+//@   ensures once : icalls("(*Notifier).Unsubscribe") == 1
+
+//@ func (*Buffer).SetCleanerConfig
+//@   props C04 C03 C11
+//@   maypanic
+//@   # the monitor invariant `cleaner` (non-nil Cleaner, Cooldown >= 0) is re-established at the release: an
+//@   # invalid config is rejected before it is stored
+//@   ensures rejected : config.Cleaner == nil || config.Cooldown < 0 ==> ret != nil
+//@   ensures stored : config.Cleaner != nil && config.Cooldown >= 0 ==> ret == nil
+
+//@ func (*Buffer).CleanerConfig
+//@   props C04 C11
+//@   maypanic
+
+//@ func (*Buffer).Done
+//@   props C12 C11
+//@   maypanic
+//@   ensures chan : ret == b.done
+
+//@ func (*Channel).Done
+//@   props C12 C13
+//@   maypanic
+
+//@ func (*consumer).Done
+//@   props C12
+//@   maypanic
+
+//@ func (*Channel).cleanup
+//@   props C12 C13
+//@   maypanic
+//@   # the cleanup goroutine closes the channel consumer as soon as its context is cancelled
+//@   at-call (*Channel).Close#0 aftercancel : cancelled(c.ctx)
+//@   ensures closed : icalls("(*Channel).Close") == 1
+//@   ensures-panic closed_p : icalls("(*Channel).Close") == 1
+
+//@ func (*Workers).Wrap
+//@   props C14
+//@   panics nilrecv : w == nil
+//@   panics badcount : count <= 0
+//@   panics nilvalue : value == nil
+//@   ensures wrapped : ret != nil && captured(ret, count) == count && captured(ret, value) == value && captured(ret, w) == w
+
+//@ func (*Workers).Wrap$1
+//@   props C14
+//@   modular
+//@   maypanic
+//@   at-call (*Workers).Call#0 forward : arg0 == w && arg1 == count && arg2 == value
+//@   ensures result : ret0 == ilast("(*Workers).Call", 0) && ret1 == ilast("(*Workers).Call", 1)
+
+// ---------------------------------------------------------------------------------------------------
 // C19 — Callable (callable.go), relative to the trusted specification of package reflect (rt_* / rv_*
 // are its uninterpreted functions; kinds: 18 chan, 19 func, 20 interface, 21 map, 22 pointer, 23 slice).
 
@@ -1018,8 +1193,8 @@ package bigbuff
 //@ func (*ChanPubSub).SubscribeContext
 //@   props C06 C07
 //@   requires recv : x != nil
-//@   at-call context.AfterFunc#0 subscribed : icalls("(*ChanPubSub).Add") == 1 && boundname(arg1) == "(*ChanPubSub).Unsubscribe"
-//@   ensures one : icalls("(*ChanPubSub).Add") == 1
+//@   at-call context.AfterFunc#0 subscribed : icalls("(*ChanPubSub).Subscribe") == 1 && boundname(arg1) == "(*ChanPubSub).Unsubscribe"
+//@   ensures one : icalls("(*ChanPubSub).Subscribe") == 1
 
 //@ func (*ChanPubSub).SubscribeContext$1
 //@   maypanic
@@ -1030,11 +1205,11 @@ package bigbuff
 //@   # stop is the function returned by context.AfterFunc: it does not panic (A-LIB)
 //@   total stop
 //@   at-call dynamic#2 acked : calledsince("(*ChanPubSub).Wait") && arg0 == lastrecv(x.ping.C)
-//@   ensures unsub : lastres(stop, 0) ==> icalls("(*ChanPubSub).Add") == 1
-//@   ensures nounsub : !lastres(stop, 0) ==> icalls("(*ChanPubSub).Add") == 0
-//@   ensures-panic unsub_p : yield == nil && calls(stop) == 1 ==> (lastres(stop, 0) ==> icalls("(*ChanPubSub).Add") == 1) && (!lastres(stop, 0) ==> icalls("(*ChanPubSub).Add") == 0)
+//@   ensures unsub : lastres(stop, 0) ==> icalls("(*ChanPubSub).Unsubscribe") == 1
+//@   ensures nounsub : !lastres(stop, 0) ==> icalls("(*ChanPubSub).Unsubscribe") == 0
+//@   ensures-panic unsub_p : yield == nil && calls(stop) == 1 ==> (lastres(stop, 0) ==> icalls("(*ChanPubSub).Unsubscribe") == 1) && (!lastres(stop, 0) ==> icalls("(*ChanPubSub).Unsubscribe") == 0)
 //@   ensures stopped : calls(stop) == 1
-//@   loop 0 invariant iter : lastres(stop, 0) && calls(stop) == 1 && icalls("(*ChanPubSub).Add") == 0 && yield != nil
+//@   loop 0 invariant iter : lastres(stop, 0) && calls(stop) == 1 && icalls("(*ChanPubSub).Unsubscribe") == 0 && yield != nil
 
 //@ func NewChanPubSub
 //@   props C06 C07
